@@ -52,6 +52,7 @@ REQUIRED_BRANCHES = ['ineligible_skipped', 'all_eligible', 'nmin_zero', 'conv_ye
                      'law_wav_micron', 'law_wav_other_unit', 'law_chi_cm2_g', 'law_chi_other_unit',
                      'consecutive_fits', 'refit_aps_unit', 'refit_dist_unit', 'refit_av', 'refit_nmin_sel', 'refit_subset',
                      'duplicate_photometry', 'duplicate_adjacent', 'duplicate_apart',
+                     'model_dir_absolute', 'model_dir_relative', 'model_dir_unnormalised',
                      'pkg_indep', 'pkg_dep', 'pkg_cube', 'filter_by_wavelength', 'data_path', 'data_handle',
                      'rw_nan', 'rw_inf', 'rw_zero_fits', 'rw_fluxes', 'rw_no_fluxes',
                      'rw_share_source_buffer', 'rw_share_same_info_keep', 'rw_share_array_inplace',
@@ -133,6 +134,12 @@ def gen_pkg(rng, variant='indep'):
         # wavelengths asked for: slightly off the cube's own (nearest-wavelength look-up)
         pkg['ask_wav'] = [float('%.4g' % (w * rng.choice([1., 1., 1.002, 0.999]))) for w in wavs]
         pkg['named'] = [rng.random() < 0.25 for _ in wavs]    # some filters by name (convolved file), the rest by wavelength
+        if rng.random() < 0.4:
+            # aperture-dependent cube (distance-dependent fits from a version-2 package)
+            pkg['ap_au'] = [1., 1e3, 3e4, 1e7]
+            pkg['ap_gain'] = [round(1. + 0.3 * a + rng.uniform(0, 0.2), 2) for a in range(4)]
+            pkg['logd_step'] = rng.choice([0.1, 0.2])
+            pkg['cube_val'] = [[[v * g for v in pkg['cube_val'][i][0]] for g in pkg['ap_gain']] for i in range(nm)]
     return pkg
 
 
@@ -225,7 +232,8 @@ def gen_fit_case(rng, directed=None):
     case = dict(kind='fit', pkg=pkg, sources=sources, n_min=n_min, sel=sel,
                 conv=directed['conv'] if 'conv' in directed else rng.random() < 0.5,
                 ending=directed.get('ending') or rng.choice(ENDINGS),
-                data_as=directed.get('data_as') or rng.choice(['path', 'path', 'handle']), dup=bool(dup))
+                data_as=directed.get('data_as') or rng.choice(['path', 'path', 'handle']), dup=bool(dup),
+                dir_spelling=directed.get('dir_spelling') or rng.choice(['abs', 'abs'] + SPELLINGS))
     # 1-2 further fit() calls on the SAME package in the same process, with varied arguments
     nfu = directed['followups'] if 'followups' in directed else rng.choice([0, 0, 1, 2])
     fus = []
@@ -299,7 +307,7 @@ def gen_rw_case(rng, directed=None):
                          fluxes=[[round(rng.uniform(-3, 3), 4) for _ in range(nb)] for _ in range(n)] if with_flux else None,
                          sort=rng.random() < 0.7,
                          names=['m%d' % k for k in rng.sample(range(1000), n)]))
-    case = dict(kind='rw', pkg=pkg, recs=recs)
+    case = dict(kind='rw', pkg=pkg, recs=recs, dir_spelling=directed.get('dir_spelling') or rng.choice(['abs', 'abs'] + SPELLINGS))
     if share:
         # objects shared between records and changed between the writes (see `write_shared`)
         case['share'] = share
@@ -342,7 +350,8 @@ def gen_hist_case(rng, tier, directed=None):
         alphabet += [['fc', nice(rng, 0.5, 3e3, 2)]]           # filter_output(cpd=...)
     case = dict(kind='hist', pkg=pkg, sources=sources, out_sel=out_sel, conv=conv,
                 mem_from=directed.get('mem_from') or rng.choice(['fit', 'read']), alphabet=alphabet,
-                additional=directed['additional'] if 'additional' in directed else rng.random() < 0.3)
+                additional=directed['additional'] if 'additional' in directed else rng.random() < 0.3,
+                dir_spelling=directed.get('dir_spelling') or rng.choice(['abs', 'abs'] + SPELLINGS))
     if 'first' in directed:
         case['exhaustive_first'] = directed['first']
     elif pp:
@@ -379,10 +388,14 @@ def gen_cases(seed, tier):
                      dict(variant='indep', n_min=2, followups=2, fu_kinds=['aps_unit', 'av'], all_eligible=True),
                      dict(variant='dep', n_min=2, followups=2, fu_kinds=['nmin_sel', 'subset'], all_eligible=True),
                      dict(variant='cube', n_min=2, followups=2, fu_kinds=['dist_unit', 'same'], all_eligible=True),
+                     dict(variant='indep', n_min=2, dir_spelling='rel'), dict(variant='dep', n_min=2, dir_spelling='rel_dotdot', followups=1, fu_kinds=['same']),
+                     dict(variant='cube', n_min=2, dir_spelling='abs_trailing'), dict(variant='indep', n_min=3, dir_spelling='rel_trailing', data_as='handle'),
+                     dict(variant='cube', n_min=2, dir_spelling='rel_dot', conv=True), dict(variant='dep', n_min=2, dir_spelling='abs_dotdot'),
                      dict(variant='indep', n_min=2, n_lines=4, all_eligible=True, dup='adjacent'),
                      dict(variant='indep', n_min=2, n_lines=6, all_eligible=True, dup='apart'),
                      dict(variant='dep', n_min=2, n_lines=3, all_eligible=True, dup='adjacent', followups=1, fu_kinds=['same'])])
     for dsp in directed_fit:
+        dsp.setdefault('dir_spelling', 'abs')
         dsp.setdefault('variant', 'indep')
         dsp.setdefault('data_as', 'path')
         dsp.setdefault('followups', 0)
@@ -394,7 +407,8 @@ def gen_cases(seed, tier):
                 dict(fluxes=True, share=None), dict(fluxes=False, share=None),
                 dict(share='source_buffer'), dict(share='same_info_keep'), dict(share='array_inplace', fluxes=True),
                 dict(share='source_buffer', fluxes=True, law_units=['AA', 'm2/kg']),
-                dict(share='array_inplace', fluxes=False, law_units=['micron', 'cm2/g']), dict(share=None, law_units=['nm', 'm2/kg'])]:
+                dict(share='array_inplace', fluxes=False, law_units=['micron', 'cm2/g']), dict(share=None, law_units=['nm', 'm2/kg']),
+                dict(share=None, dir_spelling='rel_dot'), dict(share='same_info_keep', dir_spelling='abs_dslash'), dict(share=None, dir_spelling='rel')]:
         yield gen_rw_case(case_rng(seed, PID, i), dsp)
         i += 1
     for dsp in [dict(k=1, mem_from='fit', out_sel=['A', 0], thrs=[1e-9, 1e12], conv=True),
@@ -403,7 +417,9 @@ def gen_cases(seed, tier):
                 dict(k=2, mem_from='fit', out_sel=['A', 0], thrs=[1e-9, 1e12], conv=False, additional=True),
                 dict(k=1, mem_from='fit', out_sel=['A', 0], conv=True, pp=True, additional=False),
                 dict(k=2, mem_from='read', out_sel=['A', 0], conv=False, pp=True, additional=True, law_units=['AA', 'm2/kg']),
-                dict(k=1, mem_from='read', out_sel=['A', 0], conv=True, law_units=['micron', 'cm2/g'])]:
+                dict(k=1, mem_from='read', out_sel=['A', 0], conv=True, law_units=['micron', 'cm2/g'], dir_spelling='rel'),
+                dict(k=2, mem_from='fit', out_sel=['A', 0], conv=True, dir_spelling='rel_trailing'),
+                dict(k=1, mem_from='fit', out_sel=['A', 0], conv=False, dir_spelling='abs_dotdot')]:
         yield gen_hist_case(case_rng(seed, PID, i), tier, dsp)
         i += 1
     # thorough, exhaustive: all sequences of length <= 3 over the 15-call alphabet, one case per first call,
@@ -479,8 +495,8 @@ def build_pkg(pkg, d, full):
     variant = pkg.get('variant', 'indep')
     if variant == 'cube':
         pk.write_cube_package(d, names, pkg['cube_wav'], pkg['cube_val'], np.array(pkg['cube_val']) * 0.1,
-                              apertures_au=None, params={'PAR1': pkg['par1'], 'PAR2': pkg['par2']},
-                              aperture_dependent=False)
+                              apertures_au=pkg.get('ap_au'), params={'PAR1': pkg['par1'], 'PAR2': pkg['par2']},
+                              aperture_dependent=('ap_au' in pkg), logd_step=pkg.get('logd_step', 0.02))
     elif full:
         swav = sorted({0.05, 500.} | set(pkg['wavs']))
         sflux = [[[pkg['models'][i][pkg['wavs'].index(w)] if w in pkg['wavs'] else pkg['models'][i][0] for w in swav]]
@@ -501,7 +517,7 @@ def build_pkg(pkg, d, full):
             fnames.append(pkg['ask_wav'][j] * u.micron)       # wavelength-type filter
             continue
         fnames.append(fn)
-        if variant == 'dep':
+        if variant == 'dep' or (variant == 'cube' and 'ap_au' in pkg):
             pk.write_convolved(d, fn, w, names, [[pkg['models'][i][j] * g for g in pkg['ap_gain']] for i in range(nm)],
                                [[0.] * len(pkg['ap_au']) for _ in range(nm)], apertures_au=pkg['ap_au'])
         else:
@@ -511,13 +527,12 @@ def build_pkg(pkg, d, full):
 
 
 def make_expected_fitter(pkg, d, fnames, ext, cp=None):
-    """the object interface with the settings fit() uses (its Fitter default `use_memmap=True` matters for
-    version-2 packages only: model fluxes are then held in float32); a NEW Fitter for every call"""
+    """the object interface with its DEFAULT options, for either package format (the default `use_memmap=True`
+    matters for version-2 packages: model fluxes are then held in float32); a NEW Fitter for every call"""
     from sedfitter.fit import Fitter
     aps, dist, av, idx = call_quantities(pkg, cp)
     with common.quiet():
-        return Fitter([fnames[j] for j in idx], aps, d, extinction_law=ext, av_range=av, distance_range=dist,
-                      use_memmap=(pkg.get('variant') == 'cube'))
+        return Fitter([fnames[j] for j in idx], aps, d, extinction_law=ext, av_range=av, distance_range=dist)
 
 
 def source_line(s):
@@ -682,6 +697,28 @@ def ask_records(n_min, conv, toks):
 # ----------------------------------------------------------------------------- kind: fit
 
 ARCSEC = {'arcsec': 1., 'arcmin': 60., 'deg': 3600.}
+SPELLINGS = ['abs', 'abs_trailing', 'abs_dotdot', 'abs_dslash', 'rel', 'rel_dot', 'rel_trailing', 'rel_dotdot']
+
+
+def spell_dir(d, how):
+    """(directory to chdir into or None, the way the directory `d` is written down).  Relative spellings are
+    relative to the parent of `d`; the non-normalised ones carry a trailing slash, a `..` or a double slash."""
+    parent, base = os.path.split(d)
+    return {'abs': (None, d),
+            'abs_trailing': (None, d + '/'),
+            'abs_dotdot': (None, d + '/../' + base),
+            'abs_dslash': (None, parent + '//' + base),
+            'rel': (parent, base),
+            'rel_dot': (parent, './' + base),
+            'rel_trailing': (parent, base + '/'),
+            'rel_dotdot': (parent, base + '/../' + base)}[how]
+
+
+def spelling_branches(how):
+    b = {'model_dir_relative' if how.startswith('rel') else 'model_dir_absolute'}
+    if how not in ('abs', 'rel'):
+        b.add('model_dir_unnormalised')
+    return b
 
 
 def run_fit_case(case, use_model=True):
@@ -689,8 +726,16 @@ def run_fit_case(case, use_model=True):
     pkg = case['pkg']
     d = tempfile.mkdtemp(prefix='c10f_')
     branches = set()
+    cwd0 = os.getcwd()
     try:
         fnames, ext = build_pkg(pkg, d, full=False)
+        # model directory, data file and output file as the user writes them: absolute, relative to the
+        # working directory, normalised or not
+        how = case.get('dir_spelling', 'abs')
+        chd, md = spell_dir(d, how)
+        if chd:
+            os.chdir(chd)
+        branches |= spelling_branches(how)
         base = dict(n_min=case['n_min'], sel=case['sel'], conv=case['conv'])
         calls = [base]
         for fu in case.get('followups', []):
@@ -700,7 +745,7 @@ def run_fit_case(case, use_model=True):
         first = None
         n_done = 0
         for ci, cp in enumerate(calls):
-            r = one_fit_call(case, cp, ci, d, fnames, ext, use_model, branches)
+            r = one_fit_call(case, cp, ci, md, fnames, ext, use_model, branches)
             if r is None:
                 continue                      # this follow-up has no eligible source: nothing is claimed
             if not r.ok:
@@ -723,6 +768,7 @@ def run_fit_case(case, use_model=True):
             first.sample['fit_calls'] = n_done
         return first
     finally:
+        os.chdir(cwd0)
         shutil.rmtree(d, ignore_errors=True)
 
 
@@ -817,6 +863,8 @@ def one_fit_call(case, cp, ci, d, fnames_all, ext, use_model, branches):
         if any(nds[i] < 2 for i in elig):
             branches.add('singular_source_fitted')
         branches.add('pkg_' + pkg.get('variant', 'indep'))
+        if pkg.get('variant') == 'cube':
+            branches.add('pkg_cube_aperture_dependent' if 'ap_au' in pkg else 'pkg_cube_single_aperture')
         branches |= law_branches(pkg)
         if any(not isinstance(f, str) for f in fnames):
             branches.add('filter_by_wavelength')
@@ -932,7 +980,9 @@ def run_rw_case(case, use_model=True):
         ext = make_law(pkg)
         filters = [{'aperture_arcsec': float(a), 'name': 'B%d' % j, 'wav': w * u.micron}
                    for j, (a, w) in enumerate(zip(pkg['aps'], pkg['wavs']))]
-        meta = (os.path.join(d, 'models'), filters, ext)
+        how = case.get('dir_spelling', 'abs')
+        meta = (spell_dir(os.path.join(d, 'models'), how)[1], filters, ext)
+        branches |= spelling_branches(how)
         infos = []
         for r in case['recs']:
             nb = len(r['flags'])
@@ -1246,20 +1296,26 @@ def run_hist_case(case, use_model=True):
     pkg = case['pkg']
     d = tempfile.mkdtemp(prefix='c10h_')
     branches = set()
+    cwd0 = os.getcwd()
     try:
         fnames, ext = build_pkg(pkg, d, full=True)
+        how = case.get('dir_spelling', 'abs')
+        chd, md = spell_dir(d, how)
+        if chd:
+            os.chdir(chd)
+        branches |= spelling_branches(how)
         lines = [source_line(s) for s in case['sources']]
-        data = os.path.join(d, 'data.txt')
-        out = os.path.join(d, 'out.fitinfo')
+        data = os.path.join(md, 'data.txt')
+        out = os.path.join(md, 'out.fitinfo')
         write_data(data, lines, 'eof_newline')
         sel0 = case['out_sel']
         try:
-            run_fit(pkg, d, fnames, ext, data, out, 3, sel0, case['conv'])
+            run_fit(pkg, md, fnames, ext, data, out, 3, sel0, case['conv'])
             hmeta, from_file = read_fit_file(out)
         except Exception as e:
             return CaseResult(False, violates=True, detail='fit()/read raised %s: %s' % (type(e).__name__, e))
         if hmeta is not None:
-            dm = diff_meta(hmeta, d, fnames, pkg['aps'], pkg['wavs'], ext)
+            dm = diff_meta(hmeta, md, fnames, pkg['aps'], pkg['wavs'], ext)
             if dm:
                 return CaseResult(False, violates=True, detail='metadata read back changed: ' + dm)
         branches |= law_branches(pkg)
@@ -1267,7 +1323,7 @@ def run_hist_case(case, use_model=True):
         if len(from_file) != k:
             return CaseResult(False, violates=True, detail='fit() wrote %d records for %d eligible sources' % (len(from_file), k))
         if case['mem_from'] == 'fit':
-            fitter = pk.make_fitter(d, fnames, pkg['aps'], ext, pkg['av'], pkg['dist'], use_memmap=False)
+            fitter = pk.make_fitter(md, fnames, pkg['aps'], ext, pkg['av'], pkg['dist'], use_memmap=False)
             objs = []
             for l in lines:
                 with common.quiet():
@@ -1395,6 +1451,7 @@ def run_hist_case(case, use_model=True):
         key = common.canon_hash(case)
         return CaseResult(True, branches=branches, key=key, nontrivial=cuts, sample=sample)
     finally:
+        os.chdir(cwd0)
         shutil.rmtree(d, ignore_errors=True)
 
 
